@@ -1,7 +1,7 @@
 (* C05 - stopping discipline: limits, termination and exit requests are honoured.  Statements only (proofs: Core/Stop_Proofs.v).
    They hold for every algorithm over the machine, every termination condition of the machine's language, every state. *)
 From Coq Require Import List ZArith QArith Bool.
-From MV Require Import Common.Num Core.Machine Core.Stop_Proofs Core.DE Core.DE_Proofs Core.NM Core.NM_Proofs.
+From MV Require Import Common.Num Core.Machine Core.Stop_Proofs Core.DE Core.DE_Proofs Core.NM Core.NM_Proofs Core.Powell Core.Powell_Proofs.
 Import ListNotations.
 Open Scope Z_scope.
 
@@ -73,28 +73,36 @@ Proof. exact solve_stops_on_message. Qed.
 Print Assumptions C05_solve_stops_on_message.
 
 (* "hence Solve always returns": for every algorithm whose iteration adds at least one record to the energy history
-   and keeps an invariant G of its own state, for well-formed oracle inputs V (and whose finalisation removes no record),
+   (unless the generation limit is 0) and keeps an invariant G of its own state, for well-formed oracle inputs V (and whose
+   finalisation removes no record),
    once the limits are absolute (they are after the first Terminated) the Solve
    loop stops by itself within (generation limit + 3 - current history length) Steps, whatever the termination
    condition, the cost function, the constraints and the oracle inputs are *)
 Theorem C05_solve_terminates :
   forall (N : Num) (inf : T N) (C I : Type) (A : algo N C I) (G : C -> Prop) (V : I -> Prop),
-  (forall (s : sys N) (c : C) (i : I), G c -> V i ->
+  (forall (s : sys N) (c : C) (i : I), G c -> V i -> maxiter N s <> LAbs 0 ->
      let r := run_prog inf (a_nested N C I A) s (a_step N C I A s c i) in
      (S (ehlen N C I A s c) <= ehlen N C I A (set_stepmon N (fst r) (stepmon N (fst r) ++ snd (snd r))) (fst (snd r)))%nat /\
      G (fst (snd r))) ->
-  (forall (s : sys N) (c : C),
+  (forall (s : sys N) (c : C), G c ->
      (ehlen N C I A s c <= ehlen N C I A (set_stepmon N s (stepmon N s ++ snd (a_finalize N C I A s c))) (fst (a_finalize N C I A s c)))%nat) ->
   (forall (s : sys N) (c : C) (i : I), a_ehist_extra N C I A (a_decorate N C I A s c i) = a_ehist_extra N C I A c) ->
   (forall (s : sys N) (c : C) (i : I), G c -> V i -> G (a_decorate N C I A s c i)) ->
   (forall (s : sys N) (c : C), G c -> G (fst (a_finalize N C I A s c))) ->
-  (forall c : C, (length (a_ehist_extra N C I A c) <= 1)%nat) ->
+  (forall c : C, G c -> (length (a_ehist_extra N C I A c) <= 1)%nat) ->
   forall (f : nat) (s : sys N) (c : C) (is : list I) (dflt : I) (mi mf : Z),
   G c -> Forall V is -> V dflt ->
-  abs_limits N mi mf s -> 0 <= mi ->
+  abs_limits N mi mf s -> 0 < mi ->
   (Z.to_nat (mi + 3) <= S f + ehlen N C I A s c)%nat ->
   snd (solve N inf C I A (S f) s c is dflt) = true.
 Proof. exact solve_terminates. Qed.
+Print Assumptions C05_solve_terminates.
+
+(* with a generation limit of 0 the very first Step reports the stop, for every algorithm *)
+Theorem C05_solve_terminates_zero_limit :
+  forall (N : Num) (inf : T N) (C I : Type) (A : algo N C I) (f : nat) (s : sys N) (c : C) (is : list I) (dflt : I) (mf : Z),
+  abs_limits N 0 mf s -> snd (solve N inf C I A (S f) s c is dflt) = true.
+Proof. exact solve_terminates_zero. Qed.
 Print Assumptions C05_solve_terminates.
 
 (* ... and differential evolution (both solvers) meets those premises unconditionally *)
@@ -118,6 +126,19 @@ Print Assumptions C05_nm_solve_terminates.
 
 Example C05_nm_nonvacuous : forall (N : Num) (inf : T N) ndim, G_nm N (nm_init N inf ndim).
 Proof. intros. split; cbn [nm_init sim fsim]; [discriminate|]. now rewrite !repeat_length. Qed.
+
+(* ... and Powell, whenever the extrapolated point of an iteration is given (the real code always computes it) *)
+Theorem C05_powell_solve_terminates :
+  forall (N : Num) (inf : T N) (f : nat) (s : sys N) (c : pw N) (is : list (pw_in N)) (dflt : pw_in N) (mi mf : Z),
+  G_pw N c -> Forall (V_pw N) is -> V_pw N dflt ->
+  abs_limits N mi mf s -> 0 <= mi ->
+  (Z.to_nat (mi + 3) <= S f + ehlen N _ _ (pw_algo N inf) s c)%nat ->
+  snd (solve N inf _ _ (pw_algo N inf) (S f) s c is dflt) = true.
+Proof. exact pw_solve_terminates. Qed.
+Print Assumptions C05_powell_solve_terminates.
+
+Example C05_powell_nonvacuous : forall (N : Num) (inf : T N) ndim, G_pw N (pw_init N inf ndim).
+Proof. intros. unfold G_pw. simpl. apply le_S, le_n. Qed.
 
 (* non-vacuity: a state with a reached generation limit exists and Terminated reports it *)
 Example C05_nonvacuous : forall (C I : Type) (A : algo NumQ C I) (c : C),
